@@ -197,6 +197,7 @@ type source struct {
 	es    []kv
 	order []kv
 	cps   map[string]*ckpt
+	shape string
 }
 
 type ckpt struct {
@@ -289,6 +290,8 @@ func createOnce(s *source, size uint64, threads uint16) (*ckpt, error) {
 // ---------- independent chunk decoder ----------
 
 type pnode struct {
+	bits  int
+	label []byte
 	kind  byte // 0 nil, 1 leaf, 2 internal, 3 hash
 	k, v  []byte
 	lf    *pnode
@@ -408,7 +411,7 @@ func parseProof(items [][]byte, pos *int, depth int) (*pnode, error) {
 			return nil, fmt.Errorf("bad label")
 		}
 		rest := b[3+ll:]
-		n := &pnode{kind: 2, depth: depth}
+		n := &pnode{kind: 2, depth: depth, bits: bits, label: append([]byte{}, b[3:3+ll]...)}
 		if rest[0] == 0x02 {
 			if len(rest) != 1 {
 				return nil, fmt.Errorf("trailing bytes")
@@ -449,6 +452,71 @@ func (n *pnode) walk(f func(k, v []byte), maxDepth *int) {
 		n.l.walk(f, maxDepth)
 		n.r.walk(f, maxDepth)
 	}
+}
+
+// decodeTree parses a chunk file into its proof tree.
+func decodeTree(b []byte) (*pnode, error) {
+	raw, err := io.ReadAll(snappy.NewReader(bytes.NewReader(b)))
+	if err != nil {
+		return nil, err
+	}
+	items, err := cborItems(raw)
+	if err != nil {
+		return nil, err
+	}
+	pos := 0
+	root, err := parseProof(items, &pos, 0)
+	if err != nil {
+		return nil, err
+	}
+	if pos != len(items) {
+		return nil, fmt.Errorf("unused entries")
+	}
+	return root, nil
+}
+
+// coqShape renders a complete proof tree (no hash entries) as a Ckpt.Stack.dshape term.
+func coqShape(n *pnode) (string, bool) {
+	switch n.kind {
+	case 0:
+		return "DNil", true
+	case 1:
+		return "(DLeaf " + coqout.Bytes(n.k) + " " + coqout.Bytes(n.v) + ")", true
+	case 2:
+		lf := "None"
+		if n.lf != nil {
+			lf = "(Some (" + coqout.Bytes(n.lf.k) + ", " + coqout.Bytes(n.lf.v) + "))"
+		}
+		l, ok1 := coqShape(n.l)
+		r, ok2 := coqShape(n.r)
+		return fmt.Sprintf("(DNode %d %s %s %s %s)", n.bits, coqout.Bytes(n.label), lf, l, r), ok1 && ok2
+	}
+	return "", false
+}
+
+// shapeOf dumps the shape of the source tree: its whole-tree proof (one
+// sequential chunk with an unbounded chunk size).
+func shapeOf(s *source) (string, error) {
+	if s.shape != "" {
+		return s.shape, nil
+	}
+	c, err := createOnce(s, ^uint64(0), 0)
+	if err != nil {
+		return "", err
+	}
+	if len(c.chunks) != 1 {
+		return "", fmt.Errorf("whole-tree checkpoint has %d chunks", len(c.chunks))
+	}
+	root, err := decodeTree(c.chunks[0])
+	if err != nil {
+		return "", err
+	}
+	sh, ok := coqShape(root)
+	if !ok {
+		return "", fmt.Errorf("whole-tree proof contains hash entries")
+	}
+	s.shape = sh
+	return sh, nil
 }
 
 // decodeChunk returns the key/value pairs of a chunk file in proof order and the deepest entry.
@@ -1151,7 +1219,7 @@ func genCases(r *prng.R, i int, maxN int, perTree int) []Case {
 		case 2:
 			threads = uint16(2 + r.Intn(3))
 		default:
-			threads = uint16(1 + r.Intn(16))
+			threads = uint16(1 + r.Intn(32))
 		}
 		c := Case{Tree: sp, Src: src, Dst: backends[r.Intn(2)], ChunkSize: size, Threads: threads,
 			RSeed: r.U64(), Goroutines: []int{1, 1, 2, 3, 4, 8}[r.Intn(6)], Dups: r.Intn(4), AbortAt: -1,
@@ -1252,6 +1320,8 @@ func main() {
 	perTree := flag.Int("per-tree", 4, "cases (chunk size, threads, restore schedule) per tree")
 	maxN := flag.Int("maxn", 1500, "largest tree")
 	kmax := flag.Int("kmax", 160, "largest tree evaluated by the Coq model")
+	kbuild := flag.Int("kbuild", 60, "largest tree the model builds itself by insert (larger ones are rebuilt from the dumped shape)")
+	stackBudget := flag.Int("stack-budget", 1500000, "keys*chunks*depth^2 bound for evaluating the stack port")
 	out := flag.String("out", "", "output directory")
 	replay := flag.String("replay", "", "replay a case description (JSON file)")
 	deep := flag.Bool("deep", true, "include trees deeper than the proof verifier's limit")
@@ -1267,8 +1337,8 @@ func main() {
 	}
 	defer os.RemoveAll(tmpRoot)
 
-	hdr := "From Verif Require Import Lib.Base Mkvs.Trie Ckpt.Model.\n"
-	wb := coqout.NewWriter(*out, hdr, "run_ckpt", "ck_eqb", 12)
+	hdr := "From Verif Require Import Lib.Base Mkvs.Trie Ckpt.Model Ckpt.Stack.\n"
+	wb := coqout.NewWriter(*out, hdr, "run_both", "ck_eqb", 12)
 	sum := coqout.NewSummary("seeded trees (empty, single leaf, prefix chains, bit chains, dense 4-symbol alphabet with many internal leaves, decimal strings, random, shared-prefix mixes; 0-1500 keys; values 0-320 bytes) committed to a real badger or pathbadger database; per tree several (chunk size from 1 byte to 3x the tree, threads 0..16, restore order with duplicates, 1-8 goroutines, optional abort+restart, one corruption class); non-trivial = checkpoint with at least 2 chunks restored completely; distinct = distinct (tree, chunk size, threads)")
 
 	var cases []Case
@@ -1341,9 +1411,21 @@ func main() {
 			sum.Count("misc", "K-skipped(long byte strings)")
 		}
 		if s != nil && !res.skipK && nkeys <= *kmax && lit <= 40000000 && len(res.chunkKey) > 0 {
-			es := make([]string, len(s.order))
-			for i, e := range s.order {
-				es[i] = coqKV(e)
+			src := ""
+			if nkeys <= *kbuild {
+				es := make([]string, len(s.order))
+				for i, e := range s.order {
+					es[i] = coqKV(e)
+				}
+				src = "(ByEntries " + coqout.List(es) + ")"
+				sum.Count("misc", "K-tree-built-by-model-insert")
+			} else {
+				sh, err := shapeOf(s)
+				if err != nil {
+					panic(err)
+				}
+				src = "(ByShape " + sh + ")"
+				sum.Count("misc", "K-tree-from-dumped-shape")
 			}
 			idx := map[string]int{}
 			for i, e := range s.es {
@@ -1361,7 +1443,12 @@ func main() {
 				}
 				chunks = append(chunks, coqout.List(l))
 			}
-			term := fmt.Sprintf("((%s, %d, %d), %s)", coqout.List(es), c.ChunkSize, c.Threads, coqout.List(chunks))
+			// the stack port identifies nodes by subtree comparison: bounded work only
+			both := c.Threads > 0 && nkeys*res.nchunks*(res.maxDepth+1)*(res.maxDepth+1) <= *stackBudget
+			if both {
+				sum.Count("misc", "K-stack-port-evaluated")
+			}
+			term := fmt.Sprintf("((%s, %d, %d, %s), %s)", src, c.ChunkSize, c.Threads, coqout.Bool(both), coqout.List(chunks))
 			wb.Add(term, map[string]any{"case": c})
 			sum.Count("misc", "K-case")
 		}
